@@ -419,10 +419,28 @@ def inline(lean_dir, gen_text, lname, gen):
             # drop the one-line non-vacuity examples: they evaluate the generated definition on concrete inputs and
             # would fail on a mutant by themselves; the verdict must rest on the tie THEOREM alone
             # (a docstring directly in front of such an example goes with it)
-            t = re.sub(r"/--(?:(?!-/).)*-/\s*\n(?=example )", "", t, flags=re.S)
-            t = "\n".join(l for l in t.split("\n") if not l.startswith("example "))
+            t = strip_examples(t)
         body.append("-- ======== " + mod + "\n" + t)
     return "".join("import %s\n" % i for i in extern) + "\n".join(body)
+
+
+def strip_examples(t):
+    """remove every `example …` command: its first line, the indented / blank-free continuation lines that follow, and
+    the `set_option … in` lines and the docstring directly in front of it"""
+    t = re.sub(r"/--(?:(?!-/).)*-/\s*\n(?=(?:set_option [^\n]* in\n)*example[ \n])", "", t, flags=re.S)
+    out, lines, i = [], t.split("\n"), 0
+    while i < len(lines):
+        l = lines[i]
+        if l.startswith("example ") or l == "example":
+            while out and re.match(r"set_option .* in\s*$", out[-1]):
+                out.pop()
+            i += 1
+            while i < len(lines) and (lines[i].startswith((" ", "\t")) and lines[i].strip() != ""):
+                i += 1
+            continue
+        out.append(l)
+        i += 1
+    return "\n".join(out)
 
 
 def lean_check(lean_dir, path):
